@@ -141,6 +141,23 @@ void h_fullmoves(void) {
 }
 #endif
 
+#ifdef HARNESS_h_heap_by_tag
+/* C10/C09: pages adopted from terminated threads must never land in a heap that can be destroyed (mi_heap_new heaps are
+   "no reclaim" heaps: mi_heap_destroy frees every page they hold): the heap chosen for reclaimed pages of a given tag is
+   never a no_reclaim heap */
+void h_heap_by_tag(void) {
+  static mi_heap_t H[3];
+  for (int i = 0; i < 3; i++) { H[i].tld = &TLD; H[i].tag = nd_u8() % 3; H[i].no_reclaim = nd_bool(); H[i].next = (i + 1 < 3 ? &H[i + 1] : NULL); }
+  H[2].no_reclaim = false; H[2].tag = 0;          /* the backing heap: tag 0, never destroyable, last in the thread's heap list */
+  TLD.heaps = &H[0]; TLD.heap_backing = &H[2];
+  int from = nd_u8() % 3; uint8_t tag = nd_u8() % 3;
+  mi_heap_t* r = _mi_heap_by_tag(&H[from], tag);
+  if (r != NULL) { CHECK(r->tag == tag, "the chosen heap has the requested tag"); CHECK(!r->no_reclaim, "C10: reclaimed pages never go to a destroyable (no_reclaim) heap, so mi_heap_destroy cannot free blocks of other threads"); WITNESS("found"); }
+  if (tag == 0) CHECK(r != NULL, "tag 0 always has the backing heap");
+  WITNESS("end");
+}
+#endif
+
 #ifdef HARNESS_h_force_abandon
 /* C02/C09: forced abandonment of a page: the drain of the delayed-free list that precedes it may free a block of this very
    page and thereby move it from the full queue back to its size queue; the page must be unlinked from the queue it is in
